@@ -254,6 +254,26 @@ class Builder:
         self.ops.append("move")
         return path
 
+    def pristine(self, fid, path):
+        """the file is in the basis at the same path with the same content and mode"""
+        bt = self.wt.basis_tree()
+        with bt.lock_read():
+            try:
+                if bt.id2path(fid) != path:
+                    return False
+            except Exception:  # noqa
+                return False
+            p = _join(self.d, path)
+            k = self.disk_kind(path)
+            if k != bt.kind(path):
+                return False
+            if k == "file":
+                return (open(p, "rb").read() == bt.get_file_text(path)
+                        and bool(os.stat(p).st_mode & 0o100) == bool(bt.is_executable(path)))
+            if k == "symlink":
+                return os.readlink(p) == bt.get_symlink_target(path)
+            return False
+
     def delete(self, mode=None):
         rng = self.rng
         mode = mode or rng.choice(["remove", "remove", "missing", "keep"])
@@ -263,6 +283,8 @@ class Builder:
             return None
         if mode == "missing" and fid not in self.basis_ids:
             return None      # an added file that is missing from disk is not a pending change the property speaks about
+        if mode == "keep" and not self.pristine(fid, path):
+            mode = "remove"  # a kept copy that differs from the basis is a different situation (adopted as it is)
         p = _join(self.d, path)
         if mode == "remove":
             self.wt.remove([path], keep_files=False, force=True)
@@ -361,16 +383,27 @@ def build_scenario(seedt, root=None):
     wt = ControlDir.create_standalone_workingtree(d, format=format_registry.make_controldir(fmt))
     wt.set_root_id(ROOT)
     b = Builder(wt, rng)
-    for _ in range(rng.randint(3, 9)):
+    # every basis tree has a directory with a child, a longer text, an executable file and a symlink,
+    # so that every kind of pending change is applicable
+    dpath = b.add(kind="directory", parent="")
+    b.add(kind="file", parent=dpath)
+    b.add(kind="file", parent="", exec_=True)
+    b.add(kind="symlink")
+    p0 = b.add(kind="file", parent="", exec_=False)
+    with open(_join(d, p0), "wb") as f:
+        f.write(b"".join(b"text line %d\n" % i for i in range(30)))
+    for _ in range(rng.randint(0, 5)):
         b.add()
     wt.commit("base", rev_id=b"rev-base", timestamp=1000000000, timezone=0, committer="V <v@e.c>")
     b.ops = []
     b.basis_ids = set(b.paths())
     want = rng.randint(1, 4)
     tries = 0
+    distinct = sorted(set(OPS))
+    forced = distinct[(seedt[0] + seedt[2]) % len(distinct)]    # every kind of change appears in every run
     while len(b.ops) < want and tries < 20:
         tries += 1
-        op = rng.choice(OPS)
+        op = forced if tries == 1 else rng.choice(OPS)
         if op == "rename+edit":
             p = b.edit()
             if p is not None:
@@ -1162,7 +1195,8 @@ def compare_model(ctx, enc, case, line, reply, res, is_closed):
             ctx.mismatch(case, dict(stage="after unshelve", tree=_short(res["d2"][0])), _short(enc.decode(u)), line=line)
         if int(nconf) != len(res["nconf"] or []):
             ctx.mismatch(case, dict(stage="conflicts", n=len(res["nconf"] or [])), nconf, line=line)
-    elif "uerr" in res:
+    elif "uerr" in res and not reoccupied(enc.an, case["sel"]):
+        # (a failed unshelve in the reoccupied-path family is already reported by the oracle under its family)
         ctx.mismatch(case, dict(stage="unshelve", err=res["uerr"]), "ok", line=line)
 
 
@@ -1232,7 +1266,7 @@ def run_manager(ctx, idx):
         cases.append(dict(case, op="list"))
         lines.append("names %s" % (",".join(n.replace(" ", "_") for n in names) or "-"))
         impls.append(",".join(str(x) for x in sorted(mgr.get_shelf_ids([n.replace(" ", "_") for n in names]))) or "-")
-        if r < 0.5:
+        if r < 0.5 or step < 3:
             with open(d + "/t", "ab") as f:
                 f.write(b"step %d\n" % step)
             with wt.lock_tree_write():
@@ -1253,7 +1287,7 @@ def run_manager(ctx, idx):
                 if sid in before or any(sid <= x for x in before) or sorted(before + [sid]) != after:
                     ctx.violation(dict(case, op="new"), "new shelf id %d not fresh/monotone: before %r after %r" % (sid, before, after))
         elif r < 0.75:
-            k = rng.choice(before) if before and rng.random() < 0.8 else rng.randint(1, 9)
+            k = rng.choice(before[:-1] or before) if before and rng.random() < 0.8 else rng.randint(1, 9)
             try:
                 mgr.delete_shelf(k)
                 out = "ok"
@@ -1350,7 +1384,7 @@ def run(ctx, nscen=None, cap=None):
     cap = cap or ctx.pick(20, 64)
     seeds = [(ctx.seed, FORMATS[i % len(FORMATS)], i) for i in range(nscen)]
     run_scenarios(ctx, seeds, cap, variant)
-    for i in range(ctx.pick(3, 20)):
+    for i in range(ctx.pick(6, 30)):
         run_manager(ctx, i)
     run_git(ctx)
 
